@@ -1,2 +1,3 @@
 pub mod doc;
+pub mod rel;
 pub mod text;
